@@ -17,34 +17,25 @@ open OPM.Tags OPM.Gen.TagSites
 
 /-! ## The source tables (regenerated from /repo on every run) -/
 
-/-- Nothing in openpectus/engine and openpectus/lang/exec assigns an attribute `value`, `simulated_value` or
-    `simulated` of a tag other than `Tag.__init__` of the subclasses and the primitives of `Tag` (which notify):
-    every assignment found by the scan — on `self` or on ANY other receiver (`tag.value = …`, `t.value = …`,
-    `setattr(x, "value", …)`) — is of kind init / primitive, sits in a class that is not a tag (`otherClass`), or is
-    the one audited non-tag receiver (`item.value += …`: a `StackItem` of the block-time stack). -/
+/-- Nothing in openpectus/engine and openpectus/lang/exec changes a tag's `value`, `simulated_value` or `simulated`
+    without notifying.  Every assignment to an attribute of that name found by the scan — on `self` or on ANY other
+    receiver (`tag.value = …`, `setattr(x, "value", …)`) — is one of:
+    init (a Tag subclass' `__init__`); notifying (in a method of `Tag` itself that afterwards calls
+    `self.notify_listeners(…)`: the primitives and their private helpers, no method names pinned); otherClass
+    (`self.<field>` of a class that is not a tag); foreignNonTag (the variable of a `for` over an attribute annotated
+    with non-tag element classes, e.g. the block-time stack items). -/
 theorem no_silent_assignments :
-    ∀ a ∈ valueAssigns, a.kind = "init" ∨ a.kind = "primitive" ∨ a.kind = "otherClass" ∨
-      (a.kind = "foreign" ∧ (a.func, a.target) ∈ [("BlockTimeTag.on_tick", "item.value")]) := by
+    ∀ a ∈ valueAssigns, a.kind = "init" ∨ a.kind = "notifying" ∨ a.kind = "otherClass" ∨ a.kind = "foreignNonTag" := by
   decide +kernel
 
-/-- The classes that are not tags but have such a field (their `self.<field>` assignments are not tag changes). -/
-theorem other_class_sites_pinned :
-    ((valueAssigns.filter (fun a => a.kind = "otherClass")).map (fun a => (a.cls, a.field))) =
-      [("TagValue", "value"), ("TagValue", "simulated"), ("StackItem", "value")] := by
+/-- A `setattr` with a computed attribute name only ever targets `self` of a class that is not a tag. -/
+theorem dynamic_setattrs_not_on_tags : ∀ d ∈ dynamicSetattrs, d.2.2.2 = "otherClass" := by
   decide +kernel
 
-/-- The only `setattr` with a computed attribute name forwards hardware methods in the recovery decorator. -/
-theorem dynamic_setattrs_pinned :
-    dynamicSetattrs.map (fun d => d.2.1) = ["ErrorRecoveryDecorator._setup_decorated_method_forwards"] := by
-  decide +kernel
-
-/-- The primitives that write those fields are exactly the ones the model has an operation for. -/
-theorem primitives_pinned :
-    ((valueAssigns.filter (fun a => a.kind = "primitive")).map (fun a => (a.func, a.field))) =
-      [("Tag.set_value", "value"),
-       ("Tag.simulate_value_and_unit", "simulated"), ("Tag.simulate_value_and_unit", "simulated_value"),
-       ("Tag.simulate_value", "simulated"), ("Tag.simulate_value", "simulated_value"),
-       ("Tag.stop_simulation", "simulated"), ("Tag.stop_simulation", "simulated_value")] := by
+/-- The scan is not empty-handed: each of the three fields has a notifying assignment (what the model's
+    operations `set`, `sim`, `simOff` stand for). -/
+theorem every_field_has_a_notifying_primitive :
+    ∀ f ∈ ["value", "simulated_value", "simulated"], ∃ a ∈ valueAssigns, a.kind = "notifying" ∧ a.field = f := by
   decide +kernel
 
 /-- The clock tags (pre-repair: five silent assignments) are among the scanned classes. -/
